@@ -60,6 +60,7 @@ type world struct {
 	free   map[string][]string // free run: server -> behaviours for the next connections
 	first  *firstJoin          // armed first-connection run of w.player
 	brk    *firstJoin          // armed hold at sw.switching (client breaks while a switch completes)
+	oldc   *firstJoin          // armed hold at cc.disconnecting (the old backend closed by itself)
 	log    []tracefmt.Rec
 	live   int // attempts started and not ended, from the hook events
 	hooks  []string // names of the switch hooks this run's player hit
@@ -96,6 +97,25 @@ func (w *world) onEvent(thread, name string, kv []any) {
 		if hold {
 			f.used = true
 			w.log = append(w.log, tracefmt.Rec{"ev": "dial", "who": thread, "s": fmt.Sprint(m["server"]), "phase": "acked-not-installed"})
+		}
+		w.mu.Unlock()
+		if hold {
+			close(f.parked)
+			select {
+			case <-f.release:
+			case <-time.After(20 * time.Second):
+			}
+		}
+		return
+	}
+	if name == "cc.disconnecting" {
+		// a connection's socket is closed, its handler not yet told: held for the one connection
+		// the schedule has just made the current backend close
+		w.mu.Lock()
+		f := w.oldc
+		hold := f != nil && !f.used && thread == "?"
+		if hold {
+			f.used = true
 		}
 		w.mu.Unlock()
 		if hold {
@@ -275,6 +295,7 @@ type stats struct {
 	FirstHeld  int            `json:"first_connection_runs_held_at_ack"`
 	BreakHeld  int            `json:"runs_with_client_break_held_at_switch_completion"`
 	Cancels    int            `json:"request_contexts_cancelled"`
+	OldHeld    int            `json:"runs_with_old_backend_teardown_held_during_switch"`
 	TotalMs    int64          `json:"total_ms"`
 }
 
@@ -393,6 +414,9 @@ func TestSchedules(t *testing.T) {
 			st.BreakHeld++
 		}
 		st.Cancels += info.cancels
+		if info.oldHeld {
+			st.OldHeld++
+		}
 		for _, g := range info.gates {
 			st.Gates[g]++
 		}
@@ -414,7 +438,7 @@ func TestSchedules(t *testing.T) {
 }
 
 type runInfo struct {
-	diverged, unfinished, overlap, firstHeld, breakHeld bool
+	diverged, unfinished, overlap, firstHeld, breakHeld, oldHeld bool
 	cancels                                             int
 	gates                         []string
 }
@@ -423,7 +447,7 @@ func runSchedule(w *world, idx int, sc schedule, seed int64) (recs []tracefmt.Re
 	r := w.r
 	name := fmt.Sprintf("w%d_%d", seed%1000, idx)
 	w.mu.Lock()
-	w.player, w.log, w.live, w.hooks, w.brk = name, nil, 0, nil, nil
+	w.player, w.log, w.live, w.hooks, w.brk, w.oldc = name, nil, 0, nil, nil, nil
 	for k := range w.expect {
 		delete(w.expect, k)
 	}
@@ -701,6 +725,49 @@ func runSchedule(w *world, idx int, sc schedule, seed int64) (recs []tracefmt.Re
 			}
 			// the backend acts; the calling thread wakes up and parks at sw.reset (or returns)
 			rig.WaitFor(patience, func() bool { return isDone(tn) || ctl.At(tn) != "" })
+		case "o":
+			// the destination accepts while the current backend closes its connection by itself; the
+			// proxy's teardown of that connection is held between socket close and Disconnected()
+			tn := stp.T
+			if dialing[tn] {
+				releaseDial(tn)
+			}
+			a := attemptOf[tn]
+			o := w.observe(pl, ac)
+			cur, _ := o["current"].(string)
+			var joined *rig.Attempt
+			if cur != "none" {
+				for _, at := range w.attemptsOf(cur) {
+					if st, closed := at.State(); st == "joined" && !closed {
+						joined = at
+					}
+				}
+			}
+			if a == nil || joined == nil {
+				info.diverged = true
+				continue
+			}
+			f := &firstJoin{parked: make(chan struct{}), release: make(chan struct{})}
+			w.mu.Lock()
+			w.oldc = f
+			w.mu.Unlock()
+			dirty = true
+			w.add(tracefmt.Rec{"ev": "dial", "who": tn, "s": cur, "phase": "current-backend-closes-by-itself"})
+			joined.Do("close")
+			select {
+			case <-f.parked:
+				info.oldHeld = true
+			case <-time.After(2 * time.Second):
+			}
+			if a.Do("accept") {
+				rig.WaitFor(patience, func() bool { return isDone(tn) || ctl.At(tn) != "" })
+			} else {
+				info.diverged = true
+			}
+			close(f.release)
+			w.mu.Lock()
+			w.oldc = nil
+			w.mu.Unlock()
 		case "x":
 			// the destination accepts; the client's connection breaks while the proxy completes
 			// the switch (held at sw.switching: old backend detached, client not yet told)
